@@ -132,7 +132,7 @@ crate::harnesses! {
 
     /// parsing with punctuation options the format does not allow returns an error (no value, no panic).
     /// @prop C18 C10
-    /// @tier thorough
+    /// @tier deep
     /// @mem 12
     /// @feat default radix_format
     /// @bound input "1" followed by two symbolic bytes
